@@ -402,6 +402,41 @@ class Executor(StmtMixin, LoopMixin, DriverMixin):
         parts = [v.value for v in node.values if isinstance(v, ast.FormattedValue)]
         return [(s, ty.fresh(ty.Str, "fstr")) for s, _ in self.ev_list(parts, st, sink)]
 
+    def x_ListComp(self, node, st, sink):
+        """[elt for x in xs if c]  ==  _comp = []; for x in xs: if c: _comp.append(elt)   (loop spec by ordinal)"""
+        if len(node.generators) != 1 or node.generators[0].is_async:
+            raise Unsupported("comprehension with several generators")
+        g = node.generators[0]
+        tmp = "_comp"
+        app = ast.Expr(ast.Call(func=ast.Attribute(value=ast.Name(id=tmp, ctx=ast.Load()), attr="append", ctx=ast.Load()), args=[node.elt], keywords=[]))
+        body = [app]
+        for cond in reversed(g.ifs):
+            body = [ast.If(test=cond, body=body, orelse=[])]
+        loop = ast.For(target=g.target, iter=g.iter, body=body, orelse=[])
+        for n in ast.walk(loop):
+            ast.copy_location(n, node)
+        ast.fix_missing_locations(loop)
+        self.cur_loops[id(loop)] = self.cur_loops.get(id(node))
+        saved = {k: st.vars.get(k) for k in [tmp] + [n.id for n in ast.walk(g.target) if isinstance(n, ast.Name)]}
+        decl = self.cur_contract.loops.get(self.cur_loops.get(id(node)), {}).get("elem")
+        init = SV(ty.Seq(ty.Any), None) if decl is None else ty.empty_seq(ty.Seq(self.spec.T(decl)))
+        self.assign_var(st, tmp, init)
+        out = []
+        for o in self.s_For(loop, st):
+            if o.kind == "normal":
+                v = self.read_var(o.st, tmp)
+                for k, old in saved.items():
+                    if old is None:
+                        o.st.vars.pop(k, None)
+                    else:
+                        o.st.vars[k] = old
+                out.append((o.st, SV(v.t, v.e)))
+            elif o.kind == "raise":
+                sink.append(o)
+            else:
+                raise Unsupported("control flow out of a comprehension")
+        return out
+
     def x_Lambda(self, node, st, sink):
         return [(st, Closure(node))]
 
